@@ -215,7 +215,7 @@ def St.slot (st : St) (s : Spec) : Option BSlot := st.slots.lookup s
 def St.setSlot (st : St) (s : Spec) (sl : BSlot) : St := { st with slots := upsert st.slots s sl }
 
 def St.resolve (st : St) (s : Spec) : Spec :=
-  resolveWith (fun x => st.redirects.lookup x) resolveCap
+  resolveWith (effRedirect (fun x => (st.slots.lookup x).isSome) (fun x => st.redirects.lookup x)) resolveCap
     (match resolveCap with | some m => m | none => st.redirects.length + 1) s
 
 /-- the redirect walk at the head of `load_with_redirect_count`: follow known redirects hop by
